@@ -54,6 +54,25 @@ def delimited_jelly_hint(header: bytes) -> bool:
     )
 
 
+class _PrependedReader:
+    """Serve already consumed header bytes again, then the rest of the stream."""
+
+    def __init__(self, head: bytes, inp: IO[bytes]) -> None:
+        self._head = head
+        self._inp = inp
+
+    def read(self, size: int | None = -1) -> bytes:
+        if not self._head:
+            return self._inp.read(size)
+        if size is None or size < 0:
+            data, self._head = self._head, b""
+            return data + self._inp.read()
+        data, self._head = self._head[:size], self._head[size:]
+        if len(data) < size:
+            data += self._inp.read(size - len(data))
+        return data
+
+
 def frame_iterator(inp: IO[bytes]) -> Generator[jelly.RdfStreamFrame]:
     while frame := parse_length_prefixed(jelly.RdfStreamFrame, inp):
         yield frame
@@ -83,7 +102,11 @@ def get_options_and_frames(
         # it to determine if it's delimited.
         # See also: https://github.com/Jelly-RDF/pyjelly/issues/298
         inp = io.BufferedReader(inp)  # type: ignore[arg-type, type-var, unused-ignore]
-        is_delimited = delimited_jelly_hint(inp.peek(3))
+        # peek() does at most one raw read and may return fewer than 3 bytes on a
+        # short read; read() keeps reading until it has 3 bytes or hits EOF.
+        header = inp.read(3)
+        is_delimited = delimited_jelly_hint(header)
+        inp = _PrependedReader(header, inp)  # type: ignore[assignment]
     else:
         is_delimited = delimited_jelly_hint(bytes_read := inp.read(3))
         inp.seek(-len(bytes_read), os.SEEK_CUR)
